@@ -94,7 +94,7 @@ def decide(cond, summ, qs, timeout_ms, seed, label):
             qs.violated += 1
             qs.by_candidate += 1
             return "sat", list(vals)
-    if summ.op == "mul" and (":must-fail" in label or ":C17" in label or "=>" in label):
+    if summ.op in ("mul", "pow") and (":must-fail" in label or ":C17" in label or "=>" in label):
         # wide multiplications: witness search by evaluation on the boundary grid is much cheaper than bit-blasting
         for vals in candidates(summ):
             subs = _subs(summ, vals)
